@@ -705,14 +705,63 @@ def r6_collection(chk):
     ok = len(gets) == 1 and norm(gets[0].args[0]) == k and len(rets) == 1 and has_call(rets[0], {"self._value_decoder"})
     chk.decide(ok, "C01.R6", f"{gi.key}:fetch-and-decode", gi.where(), "decoder(backend.get(key))",
                "Collection.__getitem__ does not return decoder(backend.get(key)) for the requested key")
-    ok = has_call(it.node, {"self._value_decoder"}) and has_call(it.node, {"self._backend.items"})
-    gen = [g for g in ast.walk(it.node) if isinstance(g, ast.GeneratorExp)]
-    if ok and gen:
-        g = gen[0]
-        tk, tv = [norm(x) for x in g.generators[0].target.elts]
-        ok = isinstance(g.elt, ast.Tuple) and norm(g.elt.elts[0]) == tk and norm(g.elt.elts[1]) == f"self._value_decoder({tv})"
-    chk.decide(ok, "C01.R6", f"{it.key}:decode", it.where(), "(k, decoder(v)) for k, v in backend.items()",
-               "Collection.items does not yield (key, decoder(value))")
+    # items(): every pair is (key, the decoded value stored under that key).  Either straight from the backend's pairs, or key by key
+    # through __getitem__, or by pairing two walks of the SAME key sequence (list(keys()) with values(), both un-reordered)
+    from ..canon import Env
+
+    def strip_seq(e):
+        while isinstance(e, ast.Call) and call_name(e) in ("list", "tuple", "iter") and len(e.args) == 1:
+            e = e.args[0]
+        return e
+
+    def own_env(f):
+        return Env(f.node)
+
+    def key_walk(e, f, depth=0):
+        """the sequence of keys an expression walks, with the order-changing wrappers kept: 'self.keys()', 'sorted(self.keys())', None"""
+        e = strip_seq(own_env(f).expand(e))
+        if isinstance(e, ast.Call) and isinstance(e.func, ast.Attribute) and norm(e.func.value) == "self" and not e.args and depth < 3:
+            m_ = prog.method(ci, e.func.attr)
+            if m_ is not None and e.func.attr != "keys":
+                rets_ = [r for r in walk_no_nested(m_.node) if isinstance(r, ast.Return) and r.value is not None]
+                if len(rets_) == 1:
+                    return key_walk(rets_[0].value, m_, depth + 1)
+        return norm(e) if "keys()" in norm(e) else None
+
+    def value_walk(e, f, depth=0):
+        """(key walk, True) when `e` yields the decoded value of every key of that walk, in that order"""
+        e = strip_seq(own_env(f).expand(e))
+        if isinstance(e, ast.Call) and call_name(e) == "map" and len(e.args) == 2 and norm(e.args[0]) == "self.__getitem__":
+            return key_walk(e.args[1], f)
+        if isinstance(e, ast.GeneratorExp) and len(e.generators) == 1 and not e.generators[0].ifs and isinstance(e.generators[0].target, ast.Name):
+            t_ = e.generators[0].target.id
+            if norm(e.elt) in (f"self[{t_}]", f"self.__getitem__({t_})", f"self._value_decoder(self._backend.get({t_}))"):
+                return key_walk(e.generators[0].iter, f)
+        if isinstance(e, ast.Call) and norm(e.func) == "self.values" and not e.args and depth < 2:
+            ys = [y for y in walk_no_nested(vs.node) if isinstance(y, (ast.YieldFrom, ast.Return)) and y.value is not None]
+            if len(ys) == 1:
+                return value_walk(ys[0].value, vs, depth + 1)
+        return None
+
+    prod = [y.value for y in walk_no_nested(it.node) if isinstance(y, (ast.YieldFrom, ast.Return)) and y.value is not None]
+    ok, why = False, "Collection.items does not yield (key, decoder(value))"
+    if len(prod) == 1:
+        e = strip_seq(own_env(it).expand(prod[0]))
+        if isinstance(e, ast.GeneratorExp) and len(e.generators) == 1 and not e.generators[0].ifs and isinstance(e.elt, ast.Tuple) and len(e.elt.elts) == 2:
+            g = e.generators[0]
+            if isinstance(g.target, ast.Tuple) and len(g.target.elts) == 2 and norm(g.iter) == "self._backend.items()":
+                tk, tv = [norm(x) for x in g.target.elts]
+                ok = norm(e.elt.elts[0]) == tk and norm(e.elt.elts[1]) == f"self._value_decoder({tv})"
+            elif isinstance(g.target, ast.Name) and key_walk(g.iter, it) is not None:
+                tk = g.target.id
+                ok = norm(e.elt.elts[0]) == tk and norm(e.elt.elts[1]) in (f"self[{tk}]", f"self.__getitem__({tk})", f"self._value_decoder(self._backend.get({tk}))")
+        elif isinstance(e, ast.Call) and call_name(e) == "zip" and len(e.args) == 2:
+            kw_, vw_ = key_walk(e.args[0], it), value_walk(e.args[1], it)
+            ok = kw_ is not None and kw_ == vw_
+            if not ok:
+                why = (f"Collection.items pairs the keys of `{kw_}` with the values of `{vw_}`: the two sequences are not the same walk of the key set, "
+                       "so a key is handed out with the object stored under another key")
+    chk.decide(ok, "C01.R6", f"{it.key}:decode", it.where(), "every pair is (key, decoded value stored under that key)", why)
     # through __getitem__ (as a bound method, or as `self[key]` for keys of self.keys()), or through the decoder itself
     subs = [x for x in ast.walk(vs.node) if isinstance(x, ast.Subscript) and norm(x.value) == "self" and isinstance(x.ctx, ast.Load)]
     ok = "self.__getitem__" in norm(vs.node) or has_call(vs.node, {"self._value_decoder"}) or (bool(subs) and "self.keys()" in norm(vs.node))
